@@ -933,7 +933,20 @@ func scenReloadEnd(c *Ctx) *eCase {
 	return ec
 }
 
-var scenarios = []func(*Ctx) *eCase{scenNewlineLast, scenDeep, scenUtf8, scenUtf8, scenCroak, scenLang, scenReload, scenBlanks, scenWild, scenCatchRel, scenEnds, scenSizes, scenRefused, scenCatchHub, scenSameLen, scenReloadEnd}
+// an engine with a (harmless) first function, a handler that sets TERMINATE, and several requests on the blocked session
+func scenBlockedFirst(c *Ctx) *eCase {
+	r := c.Rng
+	ec := newScenario(0)
+	ec.node("root", "Root", GInstr{Op: "MOUT", A: "go", B: "1"}, GInstr{Op: "HALT"}, GInstr{Op: "INCMP", A: "foo", B: "1"})
+	ec.node("foo", "Foo", GInstr{Op: "LOAD", A: "block", N: 0}, GInstr{Op: "MOUT", A: "back", B: "0"}, GInstr{Op: "HALT"}, GInstr{Op: "INCMP", A: "_", B: "0"})
+	ec.catchNode()
+	ec.exts = append(ec.exts, extRule{sym: "block", callIdx: -1, content: []string{"", "closed"}[r.Intn(2)], set: []uint32{6}})
+	ec.firsts = []extRule{{callIdx: -1, content: []string{"", "hello"}[r.Intn(2)]}}
+	ec.inputs = ins("", "1", "1", []string{"1", "0", "x"}[r.Intn(3)], "1", "")
+	return ec
+}
+
+var scenarios = []func(*Ctx) *eCase{scenNewlineLast, scenDeep, scenUtf8, scenUtf8, scenCroak, scenLang, scenReload, scenBlanks, scenWild, scenCatchRel, scenEnds, scenSizes, scenRefused, scenCatchHub, scenSameLen, scenReloadEnd, scenBlockedFirst}
 
 func genScenarioCases(c *Ctx, n int) []string {
 	var ls []string
